@@ -68,22 +68,39 @@ static __attribute__((noinline)) void c18_stack_poison(int kind){
   else{ double v=kind==1?INFINITY:(kind==2?-4.0:0.0); for(i=0;i<49152;i++)a[i]=v; }
   __asm__ volatile("" :: "r"(a) : "memory");
 }
+/* ambient per-thread state: the read callback behaves like fread on a good stream (it never touches errno), and VERIF_ERRNO_POISON=<n>
+   leaves errno=<n> behind before every vorbisfile call, the way any unrelated earlier call on the thread may have */
+static size_t c18_read_quiet(void *ptr,size_t size,size_t nmemb,void *src){
+  memsrc *m=src; long want=size*nmemb, left=m->len-m->pos;
+  if(want>left)want=left;
+  if(want<0)want=0;
+  memcpy(ptr,m->data+m->pos,want); m->pos+=want;
+  return want;
+}
+static ov_callbacks c18_callbacks(int seekable){ ov_callbacks cb=ms_callbacks(seekable); cb.read_func=c18_read_quiet; return cb; }
+static int c18_errno_poison=0;
+#define C18_AMBIENT() ((void)(c18_errno_poison?(errno=c18_errno_poison):0))
 static void *c18_work(void *arg){
   c18_job *J=arg; buf_t out={0,0,0};
   { const char *sp=getenv("VERIF_STACK_POISON"); if(sp&&atoi(sp)>0)c18_stack_poison(atoi(sp)); }
+  { const char *ep=getenv("VERIF_ERRNO_POISON"); c18_errno_poison=ep?atoi(ep):0; }
   J->hash=14695981039346656037ULL; J->pcmhash=14695981039346656037ULL; J->pcm=0; J->bytes=0;
   J->rc=c18_encode(J,&out);
   if(J->rc){ free(out.p); return NULL; }
   J->bytes=out.n; J->hash=fnv(J->hash,out.p,out.n);
+  /* every other job's file carries a few bytes after its last page (a tag, a cut-off copy): reads at the very end of the data happen */
+  if(J->seed%2){ unsigned char junk[64]; memset(junk,0x55,sizeof junk); buf_add(&out,junk,1+J->seed%61); }
   if(!strcmp(J->kind,"dec")){
     OggVorbis_File vf; memsrc ms; float **pcm; int bs,k; long r; uint32_t st=(uint32_t)J->seed|1;
     ms_init(&ms,out.p,out.n,1);
-    if(ov_open_callbacks(&ms,&vf,NULL,0,ms_callbacks(1))==0){
+    C18_AMBIENT();
+    if(ov_open_callbacks(&ms,&vf,NULL,0,c18_callbacks(1))==0){
       ogg_int64_t total=ov_pcm_total(&vf,-1);
       for(k=0;k<=J->nseeks;k++){
         int cnt=0;
-        while(cnt<6&&(r=ov_read_float(&vf,&pcm,2000,&bs))>0){ int c; for(c=0;c<J->ch;c++)J->pcmhash=fnv(J->pcmhash,pcm[c],r*4); J->pcm+=r; cnt++; }
+        while(cnt<6&&(C18_AMBIENT(),r=ov_read_float(&vf,&pcm,2000,&bs))>0){ int c; for(c=0;c<J->ch;c++)J->pcmhash=fnv(J->pcmhash,pcm[c],r*4); J->pcm+=r; cnt++; }
         st^=st<<13; st^=st>>17; st^=st<<5;
+        C18_AMBIENT();
         if(total>0&&k<J->nseeks) ov_pcm_seek(&vf,st%total);
       }
       ov_clear(&vf);
@@ -91,8 +108,9 @@ static void *c18_work(void *arg){
   }else if(!strcmp(J->kind,"pkt")){
     OggVorbis_File vf; memsrc ms; float **pcm; int bs; long r;
     ms_init(&ms,out.p,out.n,0);
-    if(ov_open_callbacks(&ms,&vf,NULL,0,ms_callbacks(0))==0){
-      while((r=ov_read_float(&vf,&pcm,777,&bs))>0){ int c; for(c=0;c<J->ch;c++)J->pcmhash=fnv(J->pcmhash,pcm[c],r*4); J->pcm+=r; }
+    C18_AMBIENT();
+    if(ov_open_callbacks(&ms,&vf,NULL,0,c18_callbacks(0))==0){
+      while((C18_AMBIENT(),r=ov_read_float(&vf,&pcm,777,&bs))>0){ int c; for(c=0;c<J->ch;c++)J->pcmhash=fnv(J->pcmhash,pcm[c],r*4); J->pcm+=r; }
       ov_clear(&vf);
     }
   }
